@@ -11,11 +11,20 @@ PROP = {'rule': 'rapid-generated cases, one unit per package. '
          'bind failure) for pods and for Reservation objects; other steps are delete (plain or tombstone), finish (a pod that '
          'turns Succeeded/Failed is delivered as a delete and disappears, as the phase-filtered pod informer of the scheduler does; '
          'a Reservation that turns Succeeded/Failed stays and is delivered with its terminal phase), touch (update carrying the '
-         'same allocation), optional delivery of the own bind event to the live handlers. After EVERY step (each prefix is a crash point) the persisted objects are replayed into a fresh '
-         'cache through the real informer handlers in a drawn order with up to 3 duplicate adds / no-op updates, and, in 1/10 of the '
+         'same allocation), optional delivery of the own pre-bind-patch and bind events to the live handlers (two updates); numa: '
+         "the node's cpu bind policy (node label, or kubelet policy reported through the NRT) changes at any step and, drawn, "
+         'between Reserve and the asynchronous PreBind of the in-flight object; quota: pods labelled with a quota that is created '
+         'only later (parked in the default quota, possibly bound there), quota creation, the periodic migration '
+         '(migrateDefaultQuotaGroupsPod restated with MigratePod), pod events between quota creation and the migration tick. After EVERY step (each prefix is a crash point) the persisted objects are replayed into a fresh '
+         'cache through the real informer handlers in a drawn order with up to 3 duplicate adds / no-op updates; a quarter of the '
+         'objects are first delivered as they were between pre-bind patch and bind (Add(annotated, unbound) then the update to the '
+         'bound object carrying the same allocation, before any other event of that object); in 1/10 of the '
          'cases, with pod events before the node topology / Reservation events; the fresh ledger must equal the live one and the '
          'harness model of what Reserve handed to the still-active objects. non-trivial = a crash point with >=2 holders (sharing '
          'a device / reservation / quota for device, reservation, quota) and at least one duplicate event. '
+         'quota additionally checks every late quota creation as a restart right before it: the rebuilt manager (pods parked in the '
+         'default quota, bound ones through the fail-over branch) and the live one both get the quota add and the migration tick '
+         'and must agree with each other and the model. '
          'numaPersistDecode: arbitrary PodAllocation values through preBindObject and the event handler. '
          'distinct = FNV-64 fingerprint of the full case.',
  'assumptions': ['strings carried in annotations (device ids, bus ids, reservation names/uids) are valid UTF-8, as everything that '
@@ -32,7 +41,10 @@ PROP = {'rule': 'rapid-generated cases, one unit per package. '
                  'last-writer-wins); the lazily refreshed matchableOnNode/allocatedOnNode indexes of the reservation cache and the '
                  'unread Node field of NodeAllocation.allocatedResources entries are not compared',
                  'reservations are nominated by the harness among those the live cache reports matchable (the nominator is C05); '
-                 'quotas are static during a quota history (C01 owns quota accounting)',
+                 'quota min/max are static and quotas are never deleted during a quota history (C01 owns quota accounting); at a '
+                 'restart the quotas that exist are known before any pod event (quota informer + ReplaceQuotas hook run before the '
+                 'main informers, cmd/koord-scheduler/app/server.go steps 1-3), a pod precedes its quota only when the quota is '
+                 'created later; the migration tick is assumed to have run before a crash point is compared',
                  'Go map iteration inside koordinator (hint merging, device scoring ties) is not controlled; it can change which '
                  'allocation a cycle picks, not the verdict'],
  'units': [{'name': 'codecs',
